@@ -34,8 +34,8 @@ type spec struct {
 	Steps   int         `json:"steps"` // write+sync steps (each gives >=1 TXID)
 	Levels  int         `json:"levels"`
 	Cfg     hist.Config `json:"cfg"`
-	Variant string      `json:"variant"` // plain | compact | retention | live (conc.go)
-	Tie     bool        `json:"tie"`     // second phase: a snapshot whose creation ms equals ts of its newest TXID
+	Variant string      `json:"variant"`          // plain | compact | retention | live (conc.go)
+	Tie     bool        `json:"tie"`              // second phase: a snapshot whose creation ms equals ts of its newest TXID
 	RunMs   int         `json:"run_ms,omitempty"` // live variant: duration of the concurrent workload
 }
 
